@@ -633,7 +633,15 @@ class Interp:
             ln = self.ctx.fresh(f'len({it.name})')
             self.ctx.assume(ln >= 0)
             nm = it.name
-            it = VSeq(ln, lambda i, _n=nm: opaque_like(self.ctx, f'{_n}[]'), nm)
+            txt = bool(it.fields.get('text!'))
+
+            def _elem(i, _n=nm, _t=txt):
+                e_ = opaque_like(self.ctx, f'{_n}[]')
+                if _t:
+                    e_.fields['text!'] = True
+                return e_
+
+            it = VSeq(ln, _elem, nm)
         static = None
         if isinstance(it, (VTuple, VList, tuple, list)):
             static = self.iter_static(it)
@@ -1353,7 +1361,7 @@ class Interp:
                 return simp(z_or(*[to_z3(container.at(i)) == to_z3(item) for i in range(n)]))
         if isinstance(container, str) and isinstance(item, str):
             return item in container
-        if (is_opaque(container) or is_opaque(item)) and self.sweep_mode():
+        if (is_opaque(container) or is_opaque(item) or isinstance(container, VStr) or isinstance(item, VStr)) and self.sweep_mode():
             return self.ctx.fresh(f'in@{getattr(node, "lineno", "?")}', z3.BoolSort())
         raise Unsupported(f'`in` on {type(container).__name__} line {getattr(node, "lineno", "?")}')
 
@@ -1548,7 +1556,10 @@ class Interp:
         if isinstance(o, VObj) and 'getitem!' in o.fields:
             return o.fields['getitem!'](self, o, k)
         if is_opaque(o) and self.sweep_mode():
-            return opaque_like(self.ctx, f'{o.name}[]')
+            r = opaque_like(self.ctx, f'{o.name}[]')
+            if o.fields.get('text!'):
+                r.fields['text!'] = True
+            return r
         raise Unsupported(f'subscript of {type(o).__name__} line {node.lineno}')
 
     def concrete_dict_get(self, d, k, default, raise_missing):
